@@ -1,5 +1,6 @@
 #!/usr/bin/env python3
-"""Evidence that the regenerated tie bites — ssa2lean4 (closures that capture variables by reference and call themselves;
+"""Evidence that the regenerated tie bites — ssa2lean7 (package-table initialisers, constructors of fresh structs, slices of
+slices that are built, mathext/util; plus the cases of ssa2lean4: closures that capture variables by reference and call themselves;
 plus the cases of ssa2lean3 and ssa2lean2, whose targets this tool reproduces: functions that allocate and write slices,
 nested loops, methods that update a slice held by the receiver, loops that read memory).
 
@@ -25,8 +26,8 @@ The unmodified copy is checked first (baseline: every tie must compile against a
 The repo is taken as `git archive HEAD` of --repo (a clean export: the working tree may be in use by other checks),
 or copied as it is with --worktree.
 
-usage: selftest.py [--repo /repo] [--worktree] [--lean /verif/lean] [--bin bin/ssa2lean4] [--json out.json] [--keep] [-j N] [-v]
-       [--only substring] [--gen 4|3|2|all]
+usage: selftest.py [--repo /repo] [--worktree] [--lean /verif/lean] [--bin bin/ssa2lean7] [--json out.json] [--keep] [-j N] [-v]
+       [--only substring] [--gen 7|4|3|2|all]
 exit status 0 iff every break/survive/unsupported/nobuild expectation holds and the baseline passes.
 """
 import argparse, concurrent.futures, json, os, re, shutil, subprocess, sys, tempfile, time
@@ -403,16 +404,120 @@ CASES4 = [
 ]
 
 
+# the cases of ssa2lean7 (targets generated into Generated/Ssa7, ties in LowProofs/Tie7): table initialisers, constructors,
+# slices of slices, mathext/util
+IM = ("bitmap.initMasks", "bitmap/mask.go", "func initMasks(")
+IS = ("bitmap.initSelectLookup", "bitmap/select.go", "func initSelectLookup(")
+BI = ("bmtree.init", "bmtree/index.go", "idxToPath = [][]uint64{")
+WI = ("bitword.init", "bitword/bitword.go", "BitWord = map[int]Interface{")
+NB = ("bitmap.NewBuilder", "bitmap/builder.go", "func NewBuilder(")
+NT = ("bitmap.NewTailBitmap", "bitmap/tailbitmap.go", "func NewTailBitmap(")
+NS = ("iohelper.NewSectionWriter", "iohelper/iohelper.go", "func NewSectionWriter(")
+AW = ("iohelper.AtToWriter", "iohelper/iohelper.go", "func AtToWriter(")
+SN = ("sigbits.New", "sigbits/sigbits.go", "func New(")
+BW = ("bitword.newBW", "bitword/bitword.go", "func newBW(")
+FS = ("bitword.bitWord.FromStrs", "bitword/bitword.go", ") FromStrs(")
+TS = ("bitword.bitWord.ToStrs", "bitword/bitword.go", ") ToStrs(")
+def U(f):
+    return ("mathext/util." + f, "mathext/util/util.go", "func " + f + "(")
+BITMAP_INIT = ("bitmap/bitmap.go", "func init() {")
+CASES7 = [
+    # ---- semantic mutations: the tie must break -------------------------------------------------------------
+    ("initMasks: Mask[i] = (1<<i)-1 -> (1<<i)", "break") + IM + ("Mask[i] = (1 << uint(i)) - 1", "Mask[i] = (1 << uint(i))"),
+    ("initMasks: RMask[i] = ^Mask[i] -> ^Mask[i] - 1 (off by one)", "break") + IM + ("RMask[i] = ^Mask[i]", "RMask[i] = ^Mask[i] - 1"),
+    ("initMasks: first loop i < 65 -> i < 64 (Mask[64], RMask[64] stay 0)", "break") + IM + ("for i := 0; i < 65; i++ {", "for i := 0; i < 64; i++ {"),
+    ("initMasks: MaskUpto[i] = (1<<(i+1))-1 -> (1<<i)-1", "break") + IM + ("MaskUpto[i] = (1 << uint(i+1)) - 1", "MaskUpto[i] = (1 << uint(i)) - 1"),
+    ("initMasks: RMaskUpto[i] = ^MaskUpto[i] -> ^Mask[i]", "break") + IM + ("RMaskUpto[i] = ^MaskUpto[i]", "RMaskUpto[i] = ^Mask[i]"),
+    ("initMasks: Bit[i] = 1<<i -> 1<<(i+1)", "break") + IM + ("Bit[i] = 1 << uint(i)", "Bit[i] = 1 << uint(i+1)"),
+    ("initMasks: RBit[i] = ^Bit[i] -> Bit[i]", "break") + IM + ("RBit[i] = ^Bit[i]", "RBit[i] = Bit[i]"),
+    ("initSelectLookup: entry written at (j+1)%8 instead of j", "break") + IS + ("select8Lookup[i*8+j] = uint8(x)", "select8Lookup[i*8+(j+1)%8] = uint8(x)"),
+    ("initSelectLookup: w &= w-1 -> w &= w-2", "break") + IS + ("w &= w - 1", "w &= w - 2"),
+    ("initSelectLookup: uint8(x) -> uint8(x+1)", "break") + IS + ("= uint8(x)", "= uint8(x + 1)"),
+    ("initSelectLookup: i < 256 -> i < 255 (last row stays 0)", "break") + IS + ("for i := 0; i < 256; i++ {", "for i := 0; i < 255; i++ {"),
+    ("initSelectLookup: i*8+j -> i*8+j+1 (runs off the end)", "break") + IS + ("select8Lookup[i*8+j]", "select8Lookup[i*8+j+1]"),
+    ("idxToPath: one entry of row 4 changed (…02<<32 + 3 -> + 2)", "break") + BI + ("(0x00000002 << 32) + 0x00000003, // 5   10", "(0x00000002 << 32) + 0x00000002, // 5   10"),
+    ("idxToPath: row 8 loses its last entry", "break") + BI + ("\t\t\t(0x00000007 << 32) + 0x00000007, // 14  111\n", ""),
+    ("idxToPath: row key 4 -> 3", "break") + BI + ("\t\t4: {\n", "\t\t3: {\n"),
+    ("BitWord: 4: newBW(4) -> 4: newBW(2)", "break") + WI + ("4: newBW(4)", "4: newBW(2)"),
+    ("BitWord: key 8 -> 16", "break") + WI + ("8: newBW(8)", "16: newBW(8)"),
+    ("newBW: byteCap 8/n -> 4/n", "break") + BW + ("byteCap:  8 / n", "byteCap:  4 / n"),
+    ("newBW: wordMask (1<<n)-1 -> (1<<n)", "break") + BW + ("wordMask: (1 << uint(n)) - 1", "wordMask: (1 << uint(n))"),
+    ("newBW: width n -> n+1", "break") + BW + ("width:    n,", "width:    n + 1,"),
+    ("NewTailBitmap: Offset: offset -> offset + 64", "break") + NT + ("Offset:    offset,", "Offset:    offset + 64,"),
+    ("NewTailBitmap: reclaimed: offset -> 0", "break") + NT + ("reclaimed: offset,", "reclaimed: 0,"),
+    ("NewTailBitmap: Words with one word (make(…, 1, …))", "break") + NT + ("make([]uint64, 0, reclaimThreshold>>6)", "make([]uint64, 1, reclaimThreshold>>6)"),
+    ("NewSectionWriter: limit off+n -> off+n-1", "break") + NS + ("return &SectionWriter{w, off, off, off + n}", "return &SectionWriter{w, off, off, off + n - 1}"),
+    ("NewSectionWriter: cursor starts at 0 instead of off", "break") + NS + ("return &SectionWriter{w, off, off, off + n}", "return &SectionWriter{w, off, 0, off + n}"),
+    ("NewSectionWriter: base off -> off+1", "break") + NS + ("return &SectionWriter{w, off, off, off + n}", "return &SectionWriter{w, off + 1, off, off + n}"),
+    ("AtToWriter: length maxOffset-offset -> maxOffset", "break") + AW + ("NewSectionWriter(w, offset, maxOffset-offset)", "NewSectionWriter(w, offset, maxOffset)"),
+    ("AtToWriter: starts at offset+1", "break") + AW + ("NewSectionWriter(w, offset, maxOffset-offset)", "NewSectionWriter(w, offset+1, maxOffset-offset)"),
+    ("NewBuilder: make(0, n>>6) -> make(n>>6) (Words not empty)", "break") + NB + ("make([]uint64, 0, n>>6)", "make([]uint64, n>>6)"),
+    ("NewBuilder: Offset 0 -> n", "break") + NB + ("Offset: 0,", "Offset: n,"),
+    ("sigbits.New: keys -> keys[1:]", "break") + SN + ("keys:    keys,", "keys:    keys[1:],"),
+    ("sigbits.New: sigbits of keys[1:]", "break") + SN + ("sigbits: FirstDiffBits(keys),", "sigbits: FirstDiffBits(keys[1:]),"),
+    ("FromStrs: every entry is FromStr of the empty prefix s[:0]", "break") + FS + ("rst[i] = w.FromStr(s)", "rst[i] = w.FromStr(s[:0])"),
+    ("FromStrs: make(len+1)", "break") + FS + ("make([][]byte, len(strs))", "make([][]byte, len(strs)+1)"),
+    ("ToStrs: result reversed", "break") + TS + ("rst[i] = w.ToStr(s)", "rst[len(rst)-1-i] = w.ToStr(s)"),
+    ("ToStrs: ToStr of the empty prefix s[:0]", "break") + TS + ("rst[i] = w.ToStr(s)", "rst[i] = w.ToStr(s[:0])"),
+    ("MinI8: compares as unsigned", "break") + U("MinI8") + ("if a < b {", "if uint8(a) < uint8(b) {"),
+    ("MinU16: results swapped", "break") + U("MinU16") + ("\t\treturn a\n\t} else {\n\t\treturn b\n", "\t\treturn b\n\t} else {\n\t\treturn a\n"),
+    ("MaxI64: a > b -> a < b", "break") + U("MaxI64") + ("if a > b {", "if a < b {"),
+    ("ClapU64: bounds swapped", "break") + U("ClapU64") + ("\tif n < min {\n\t\tn = min\n\t}\n\tif n > max {\n\t\tn = max\n\t}\n", "\tif n < max {\n\t\tn = max\n\t}\n\tif n > min {\n\t\tn = min\n\t}\n"),
+    ("ClapI16: lower bound not applied", "break") + U("ClapI16") + ("\tif n < min {\n\t\tn = min\n\t}\n", ""),
+    ("ClapI: n > max -> n >= max … n = max-1", "break") + U("ClapI") + ("\tif n > max {\n\t\tn = max\n\t}\n", "\tif n >= max {\n\t\tn = max - 1\n\t}\n"),
+    # ---- rewrites that leave the SSA unchanged: the tie must survive -----------------------------------------
+    ("initMasks: comment", "survive") + IM + ("\tfor i := 0; i < 65; i++ {\n", "\t// all widths\n\tfor i := 0; i < 65; i++ {\n"),
+    ("NewBuilder: blank lines", "survive") + NB + ("\treturn b\n", "\n\n\treturn b\n"),
+    ("ClapU8: comment", "survive") + U("ClapU8") + ("\tif n < min {\n", "\t// clamp\n\tif n < min {\n"),
+    # ---- harmless rewrites that change the SSA: outcome reported --------------------------------------------
+    ("initMasks: RMask[i] = ^Mask[i] -> ^((1<<i)-1) (no read back)", "report") + IM + ("RMask[i] = ^Mask[i]", "RMask[i] = ^((1 << uint(i)) - 1)"),
+    ("initMasks: the two loops in the other order", "report") + IM + ("\tfor i := 0; i < 65; i++ {\n\t\tMask[i] = (1 << uint(i)) - 1\n\t\tRMask[i] = ^Mask[i]\n\t}\n\n\tfor i := 0; i < 64; i++ {\n\t\tMaskUpto[i] = (1 << uint(i+1)) - 1\n\t\tRMaskUpto[i] = ^MaskUpto[i]\n\t\tBit[i] = 1 << uint(i)\n\t\tRBit[i] = ^Bit[i]\n\t}\n", "\tfor i := 0; i < 64; i++ {\n\t\tMaskUpto[i] = (1 << uint(i+1)) - 1\n\t\tRMaskUpto[i] = ^MaskUpto[i]\n\t\tBit[i] = 1 << uint(i)\n\t\tRBit[i] = ^Bit[i]\n\t}\n\n\tfor i := 0; i < 65; i++ {\n\t\tMask[i] = (1 << uint(i)) - 1\n\t\tRMask[i] = ^Mask[i]\n\t}\n"),
+    ("initSelectLookup: j < 8 -> j != 8", "report") + IS + ("for j := 0; j < 8; j++ {", "for j := 0; j != 8; j++ {"),
+    ("initSelectLookup: w &= w-1 -> w = w & (w-1)", "report") + IS + ("w &= w - 1", "w = w & (w - 1)"),
+    ("idxToPath: an explicit `3: nil` row added", "report") + BI + ("\t\t4: {\n", "\t\t3: nil,\n\t\t4: {\n"),
+    ("NewTailBitmap: fields of the literal in another order", "report") + NT + ("\t\tOffset:    offset,\n\t\treclaimed: offset,\n", "\t\treclaimed: offset,\n\t\tOffset:    offset,\n"),
+    ("NewSectionWriter: off + n -> n + off", "report") + NS + ("off + n}", "n + off}"),
+    ("NewSectionWriter: keyed literal", "report") + NS + ("return &SectionWriter{w, off, off, off + n}", "return &SectionWriter{limit: off + n, w: w, base: off, off: off}"),
+    ("NewBuilder: capacity n>>6 -> (n+63)>>6", "report") + NB + ("make([]uint64, 0, n>>6)", "make([]uint64, 0, (n+63)>>6)"),
+    ("NewBuilder: the struct is filled field by field", "report") + NB + ("\tb := &Builder{\n\t\tWords:  make([]uint64, 0, n>>6),\n\t\tOffset: 0,\n\t}\n", "\tb := &Builder{}\n\tb.Words = make([]uint64, 0, n>>6)\n\tb.Offset = 0\n"),
+    ("FromStrs: index loop instead of range", "report") + FS + ("\tfor i, s := range strs {\n\t\trst[i] = w.FromStr(s)\n\t}\n", "\tfor i := 0; i < len(strs); i++ {\n\t\trst[i] = w.FromStr(strs[i])\n\t}\n"),
+    ("MaxI32: a > b -> a >= b", "report") + U("MaxI32") + ("if a > b {", "if a >= b {"),
+    ("MinU: if/else -> early return", "report") + U("MinU") + ("\tif a < b {\n\t\treturn a\n\t} else {\n\t\treturn b\n\t}\n", "\tif a < b {\n\t\treturn a\n\t}\n\treturn b\n"),
+    ("ClapI32: second test as else-if on the updated value", "report") + U("ClapI32") + ("\tif n < min {\n\t\tn = min\n\t}\n\tif n > max {\n\t\tn = max\n\t}\n", "\tif n < min {\n\t\tn = min\n\t}\n\tif max < n {\n\t\tn = max\n\t}\n"),
+    # ---- outside the supported subset: the translator must refuse -------------------------------------------
+    ("initMasks: init() also writes Mask[3] (a second writer of the table)", "unsupported", "bitmap.initMasks") + BITMAP_INIT + ("\tinitSelectLookup()\n", "\tinitSelectLookup()\n\tMask[3] = 0\n"),
+    ("initMasks: called twice from init()", "unsupported", "bitmap.initMasks") + BITMAP_INIT + ("\tinitMasks()\n", "\tinitMasks()\n\tinitMasks()\n"),
+    ("initMasks: also callable after initialisation (an exported function calls it)", "unsupported", "bitmap.initMasks") + BITMAP_INIT + ("func init() {", "func ResetMasks() { initMasks() }\n\nfunc init() {"),
+    ("initMasks: used as a function value", "unsupported", "bitmap.initMasks") + BITMAP_INIT + ("func init() {", "var maskInit = initMasks\n\nfunc init() {"),
+    ("initMasks: called in a loop of init()", "unsupported", "bitmap.initMasks") + BITMAP_INIT + ("\tinitMasks()\n", "\tfor k := 0; k < 2; k++ {\n\t\tinitMasks()\n\t}\n"),
+    ("initMasks: an exported function of another package writes bitmap.RMask", "unsupported", "bitmap.initMasks", "bitstr/bitstr.go", "func Len(", "func Len(", "func Spoil() { bitmap.RMask[0] = 1 }\n\nfunc Len("),
+    ("initMasks: the address of a table entry escapes (&Bit[1] stored in a variable)", "unsupported", "bitmap.initMasks") + BITMAP_INIT + ("func init() {", "var bitOne = &Bit[1]\n\nfunc init() {"),
+    ("initSelectLookup: reads Mask, a table another initialiser writes (order of initialisation)", "unsupported") + IS + ("x := bits.TrailingZeros8(w)", "x := bits.TrailingZeros8(w) + int(Mask[0])"),
+    ("initSelectLookup: select8Lookup written by the verif hook as well", "unsupported", "bitmap.initSelectLookup", "bitmap/verif_hooks.go", "func VerifSelect8Lookup(", "r := make([]uint8, len(select8Lookup))", "select8Lookup[0] = 8\n\tr := make([]uint8, len(select8Lookup))"),
+    ("idxToPath: a function overwrites a row", "unsupported", "bmtree.init", "bmtree/verif_hooks.go", "func VerifIdxToPath(", "r := make([][]uint64, len(idxToPath))", "idxToPath[3] = nil\n\tr := make([][]uint64, len(idxToPath))"),
+    ("BitWord: a function registers further widths (map written after initialisation)", "unsupported", "bitword.init", "bitword/bitword.go", "func newBW(", "func newBW(", "func Register(n int) { BitWord[n] = newBW(n) }\n\nfunc newBW("),
+    ("NewTailBitmap: a method is called on the new struct before it is returned", "unsupported") + NT + ("\treturn tb\n", "\ttb.Compact()\n\treturn tb\n"),
+    ("NewBuilder: the new struct is stored in a package-level variable", "unsupported") + NB + ("\treturn b\n", "\tlastBuilder = b\n\treturn b\n}\n\nvar lastBuilder *Builder\n\nfunc unusedNB() {\n"),
+    ("NewSectionWriter: the field w is set to nil, not to the parameter", "unsupported") + NS + ("return &SectionWriter{w, off, off, off + n}", "return &SectionWriter{nil, off, off, off + n}"),
+    ("NewSectionWriter: the field w is left unset", "unsupported") + NS + ("return &SectionWriter{w, off, off, off + n}", "return &SectionWriter{base: off, off: off, limit: off + n}"),
+    ("FromStrs: an entry is written through after it was stored (rst[i][0] = 0)", "unsupported") + FS + ("rst[i] = w.FromStr(s)", "rst[i] = w.FromStr(s)\n\t\tif len(rst[i]) > 0 {\n\t\t\trst[i][0] = 0\n\t\t}"),
+    ("MinI8: arithmetic on int8", "unsupported") + U("MinI8") + ("\t\treturn a\n", "\t\treturn a + 0\n"),
+    ("MaxI16: conversion to int16", "unsupported") + U("MaxI16") + ("\t\treturn a\n", "\t\treturn int16(int32(a))\n"),
+    ("a tree that does not build", "nobuild") + IM + ("Mask[i] = (1 << uint(i)) - 1", "Mask[i] = undefinedName"),
+]
+
+
 GEN2_TARGETS = set(c[2] for c in CASES2)
 GEN4_TARGETS = set(c[2] for c in CASES4)
+GEN7_TARGETS = set(c[2] for c in CASES7)
 
 
 def gen_of(target):
-    return 2 if target in GEN2_TARGETS else 4 if target in GEN4_TARGETS else 3
+    return 2 if target in GEN2_TARGETS else 4 if target in GEN4_TARGETS else 7 if target in GEN7_TARGETS else 3
 
 
 def lean_name(target):
-    return target.replace(".", "_")
+    return target.replace(".", "_").replace("/", "_")
 
 
 IMPORT_RE = re.compile(r"^import\s+(\S+)\s*$", re.M)
@@ -615,8 +720,8 @@ def main():
     ap = argparse.ArgumentParser()
     ap.add_argument("--repo", default="/repo")
     ap.add_argument("--lean", default="/verif/lean")
-    ap.add_argument("--bin", default=os.path.join(HERE, "bin", "ssa2lean4"))
-    ap.add_argument("--gen", default="4", help="4: the cases of ssa2lean4 (closures; default); 3: those of ssa2lean3; 2: those of ssa2lean2; all")
+    ap.add_argument("--bin", default=os.path.join(HERE, "bin", "ssa2lean7"))
+    ap.add_argument("--gen", default="7", help="7: the cases of ssa2lean7 (initialisers, constructors, mathext/util; default); 4: those of ssa2lean4 (closures); 3: those of ssa2lean3; 2: those of ssa2lean2; all")
     ap.add_argument("--worktree", action="store_true", help="copy the working tree of --repo instead of exporting HEAD")
     ap.add_argument("--only", default="", help="run only the cases (and baselines) whose name or target contains this text")
     ap.add_argument("--json", default="")
@@ -628,10 +733,10 @@ def main():
 
     r = subprocess.run(["go", "build", "-o", args.bin, "."], cwd=HERE, env=ENV, capture_output=True, text=True)
     if r.returncode != 0:
-        raise SystemExit("selftest: cannot build ssa2lean4:\n" + r.stderr)
+        raise SystemExit("selftest: cannot build ssa2lean7:\n" + r.stderr)
 
     # the scratch ties import already-built modules: make sure they are built (through the project lock)
-    pool = {"4": CASES4, "3": CASES3, "2": CASES2, "all": CASES4 + CASES3 + CASES2}[args.gen]
+    pool = {"7": CASES7, "4": CASES4, "3": CASES3, "2": CASES2, "all": CASES7 + CASES4 + CASES3 + CASES2}[args.gen]
     all_cases = [c for c in pool if args.only in c[0] or args.only in c[2]]
     mods = set()
     for c in all_cases:
@@ -654,7 +759,7 @@ def main():
             targets.append(c[2])
     cases = [("baseline " + t, "baseline", t, None, None, None, None) for t in targets] + all_cases
 
-    scratch = tempfile.mkdtemp(prefix="ssa2lean4-selftest-", dir="/tmp")
+    scratch = tempfile.mkdtemp(prefix="ssa2lean7-selftest-", dir="/tmp")
     results = []
     try:
         # a clean copy of the repo: `git archive HEAD` (the working tree may be in use), or the tree as it is
